@@ -95,3 +95,30 @@ def c07_write_pandas_leaks():
         if type(e).__module__.startswith("duckdb"):
             out.append(f"closed connection -> {type(e).__name__}")
     return bool(out), "; ".join(out) or "no engine exception escaped"
+
+
+def c17_total_always_one():
+    import asyncio
+    import gzip
+    import json
+
+    import fakesnow.server as srv
+    from fakesnow.instance import FakeSnow
+
+    conn = FakeSnow().connect(database="db1", schema="s1")
+    conn.cursor().execute("create table t (a int)")
+    conn.cursor().execute("insert into t values (1), (2), (3)")
+    srv.sessions["FINDING-TOK"] = conn
+
+    class Req:
+        headers = {"Authorization": 'Snowflake Token="FINDING-TOK"'}
+
+        async def body(self):
+            return gzip.compress(json.dumps({"sqlText": "select a from t"}).encode())
+
+    try:
+        resp = asyncio.run(srv.query_request(Req()))
+    finally:
+        srv.sessions.pop("FINDING-TOK", None)
+    total = json.loads(resp.body)["data"]["total"]
+    return total != 3, f"server answered total={total} for a 3-row result (the connector reports it as rowcount)"
